@@ -508,7 +508,9 @@ def queue_validation_guards(prog, an, rep):
         first = _first_exit(an, v, c, b)
         okr = first is not None and first[0] == 'raise' and \
             (first[1] or '').endswith('.IncoherentQueues')
-    ext = [x for x in prog.calls_in(v) if src(x.func) == 'errs.extend']
+    ext = [x for x in prog.calls_in(v)
+           if isinstance(x.func, ast.Attribute) and x.func.attr in (
+               'extend', '__iadd__') and src(x.func.value) in acc]
     rep.check(okr and len(ext) == 2, R, v.qname + ': any reported error '
               'raises IncoherentQueues', v.where(), 'errors are not all '
               'collected (%d extend calls) or do not raise' % len(ext))
